@@ -113,6 +113,55 @@ CHECKS = {
          "subsets x integer notations for DoIP/HSFZ/ISO-TP incl. the shapes the discovery scanners emit; thorough: ports 0..65535.",
          "enumeration + independent denotation (DESIGN 1.4): TLC adds independence and exhaustive case generation. " + TRUST,
          "DESIGN.md section 4, C20"),
+ "C01": ("ISO 14229-1 request layouts transcribed into TLA+ (UdsLayoutContract: field tables, Enc/Dec/Range/registry); TLC "
+         "enumerates the abstract case space (kind x boundary classes x suppress bit x group counts x widths) and is the batch "
+         "oracle for constructor / .pdu / from_pdu / parse_dynamic / client-method wire bytes of the real code",
+         "Every abstract case generated by TLC executed at least once (5710 cases over 40 request classes found by reflection, 34 "
+         "client methods); thorough adds ~1e5 sampled values; design layer (codec pipelines with Dev_S1..S7) model-checked "
+         "against the contract with seven negative controls.",
+         "transcribe-the-case-analysis style (DESIGN 1.4): TLC adds independence and exhaustive case enumeration; a request class "
+         "without a layout row is a machinery error. " + TRUST,
+         "DESIGN.md section 4, C01"),
+ "C02": ("ISO 14229-1 response layouts in TLA+ (UdsLayoutContract R1-R3); TLC is the oracle for exhaustive byte-string sweeps "
+         "through the real response parser and for valid responses / mutated neighbours generated from the layouts",
+         "All byte strings of length 1..2 (thorough 1..3: 1.3 million) for all 20 response SIDs incl. 0x7F through parse_dynamic, "
+         "<Class>.from_pdu on all strings of length 1..2, every TLC-generated valid response and its truncations / extensions / "
+         "bit flips; completeness of the verdict tables checked by TLC.",
+         "conditional ISO fields are unspecified (R3 does not apply); known finding S6 (repeated DTCs collapsed) is listed in "
+         "KNOWN_FINDINGS.json. " + TRUST,
+         "DESIGN.md section 4, C02"),
+ "C03": ("TLA+ classification Expected(request, reply) in {Accept, Mismatch, Malformed, Unspecified} from the statement "
+         "(UdsMatchContract) and a design model of parse_pdu's decision procedure (UdsMatch.tla) model-checked over the abstract "
+         "pair space; TLC validates the real parse_pdu and UDSClient.request() on every concretised pair",
+         "5633 abstract pairs model-checked and replayed into the code; 14k (thorough 90k) concrete (request, reply) pairs: every "
+         "request kind x genuine / foreign / echo-byte-changed / suppress-bit / negative responses with all 256 codes / "
+         "truncated / extended replies, each through parse_pdu and end-to-end through the client.",
+         "secondary echoes the statement does not name are unspecified. " + TRUST,
+         "DESIGN.md section 4, C03"),
+ "C10": ("TLA+ contracts for the expected result of service and identifier scans over an abstract ECU model (ServiceScanContract, "
+         "IdentScanContract) with design models of both scanners model-checked by TLC; TLC validates traces of the real "
+         "ServicesScanner / ScanIdentifiers run over the full in-memory tcp-lines stack against scripted and random ECUs",
+         "Small abstract ECU models enumerated exhaustively with eight negative controls; ~830 (thorough 11k) real scans: session "
+         "lists x skip maps (through the real range parsers) x check-session x services 0x22/0x27/0x2E/0x31 x identifier ranges "
+         "incl. boundaries x RandomUDSServer seeds; probe order and extra probe lengths are free.",
+         "power cycling stubbed (no power supply); ECUs that refuse the session read are outside the family. " + TRUST,
+         "DESIGN.md section 4, C10"),
+ "C11": ("TLA+ model of ECU._request -> queue -> writer task -> rows with implicit toggle, abort at any point and disconnect "
+         "(DbLog.tla) model-checked by TLC incl. liveness of draining; TLC validates wire log vs rows read back with sqlite3 from "
+         "real UDSScanner runs with the real ECU and DBHandler",
+         "Histories up to length 3 (thorough 4) x six outcome classes x abort everywhere model-checked with four negative "
+         "controls; ~900 (thorough 6.5k) real runs: all 42 request kinds x outcome classes, cancellation at every await point, "
+         "raises at every step, random histories, concurrent lanes; rows compared byte-exact by TLC.",
+         "database write faults (OperationalError retry) are outside the quantifier; back-off shortened in the harness. " + TRUST,
+         "DESIGN.md section 4, C11"),
+ "C19": ("TLA+ Framing module (parsed frames independent of segmentation) and LinesStream contract/design (T1-T3) model-checked by "
+         "TLC; TLC validates traces of the real tcp-lines / unix-lines transports and the virtual ECU's server loop on hand-fed "
+         "streams for every segmentation, timeout position and close offset",
+         "Exhaustive model checking for 3 messages x all segmentations x timeout/close at every point; ~7.8k (thorough 140k) real "
+         "executions: every single and double split point, every choice vector per byte boundary of short streams, bursts of 100 "
+         "messages up to 4095 bytes, real loopback/unix sockets cross-checking the in-memory fakes.",
+         "wire format differences are drift, not violations. " + TRUST,
+         "DESIGN.md section 4, C19"),
 }
 PENDING = {}
 
